@@ -342,6 +342,12 @@ def smoothRivlenModel (ds usMain : Array Nat) (rivlen : Array Rat) (minLen : Rat
     (nd : Rat) : Array Rat × Bool :=
   (List.range rivlen.size).foldl (smoothStep ds usMain nd minLen (maxWindow / 2)) (rivlen, true)
 
+/-- well-formedness of the main-stem array `idxs_us_main` (executable; the driver's `usmain_ok`):
+every entry is the missing value or an inflow cell of its cell -/
+def usMainOK_c14 (ds usMain : Array Nat) : Bool :=
+  (List.range ds.size).all fun d =>
+    usMain[d]! == ds.size || (usMain[d]! < ds.size && usMain[d]! != d && ds[usMain[d]!]! == d)
+
 /-- hypothesis `hcov` of the model = oracle theorems (`fill_down_eq_spec`, `estModel_eq_spec`,
 `river_slope_eq_spec`): the cell order holds every cell of the network -/
 def coversNet_c14 (ds : Array Nat) (seq : List Nat) : Bool :=
